@@ -58,6 +58,11 @@ type LN struct {
 	InvoiceStatusErr bool
 	CreateInvoiceErr bool
 	PayCalls  []PayCall
+	// ground truth of what the backend answered, per payment hash (used by the monitors only)
+	succeeded       map[string]bool   // some answer reported success
+	successPreimage map[string]string // ... with this preimage (first one)
+	refused         map[string]bool   // some answer reported failed or not-found
+	lastAnswer      map[string]int    // kind of the last answer given
 	LookCalls int
 	FeeFn     func(uint64) uint64
 	rng       *rand.Rand
@@ -67,6 +72,7 @@ type LN struct {
 func NewLN(rng *rand.Rand) *LN {
 	return &LN{invoices: map[string]*lnInvoice{}, byReq: map[string]*lnInvoice{}, rng: rng,
 		PayScript: map[string][]PayAnswer{}, LookScript: map[string][]PayAnswer{},
+		succeeded: map[string]bool{}, successPreimage: map[string]string{}, refused: map[string]bool{}, lastAnswer: map[string]int{},
 		FeeFn: func(a uint64) uint64 { return (a + 99) / 100 }}
 }
 
@@ -154,6 +160,20 @@ func (l *LN) nextPay(hash string) PayAnswer {
 	return sc[0]
 }
 
+func (l *LN) record(hash string, a PayAnswer) PayAnswer {
+	l.lastAnswer[hash] = a.Kind
+	switch a.Kind {
+	case 0:
+		if !l.succeeded[hash] {
+			l.succeeded[hash] = true
+			l.successPreimage[hash] = a.Preimage
+		}
+	case 1, 4:
+		l.refused[hash] = true
+	}
+	return a
+}
+
 func answerToStatus(a PayAnswer) (lightning.PaymentStatus, error) {
 	switch a.Kind {
 	case 0:
@@ -178,7 +198,7 @@ func (l *LN) SendPayment(ctx context.Context, request string, maxFee uint64) (li
 		return lightning.PaymentStatus{}, err
 	}
 	l.PayCalls = append(l.PayCalls, PayCall{Request: request, Hash: bolt.PaymentHash, MaxFee: maxFee, AmountMsat: uint64(bolt.MSatoshi)})
-	return answerToStatus(l.nextPay(bolt.PaymentHash))
+	return answerToStatus(l.record(bolt.PaymentHash, l.nextPay(bolt.PaymentHash)))
 }
 
 func (l *LN) PayPartialAmount(ctx context.Context, request string, amountMsat, maxFee uint64) (lightning.PaymentStatus, error) {
@@ -190,7 +210,7 @@ func (l *LN) PayPartialAmount(ctx context.Context, request string, amountMsat, m
 		return lightning.PaymentStatus{}, err
 	}
 	l.PayCalls = append(l.PayCalls, PayCall{Request: request, Hash: bolt.PaymentHash, MaxFee: maxFee, AmountMsat: amountMsat, Partial: true})
-	return answerToStatus(l.nextPay(bolt.PaymentHash))
+	return answerToStatus(l.record(bolt.PaymentHash, l.nextPay(bolt.PaymentHash)))
 }
 
 func (l *LN) OutgoingPaymentStatus(ctx context.Context, hash string) (lightning.PaymentStatus, error) {
@@ -200,10 +220,11 @@ func (l *LN) OutgoingPaymentStatus(ctx context.Context, hash string) (lightning.
 	l.LookCalls++
 	sc := l.LookScript[hash]
 	if len(sc) == 0 {
+		l.record(hash, PayAnswer{Kind: 3})
 		return lightning.PaymentStatus{}, errors.New("scripted: lookup error")
 	}
 	l.LookScript[hash] = sc[1:]
-	return answerToStatus(sc[0])
+	return answerToStatus(l.record(hash, sc[0]))
 }
 
 func (l *LN) FeeReserve(amount uint64) uint64 { return l.FeeFn(amount) }
